@@ -9,6 +9,11 @@ Theorem c03_fixed_lib_partial : c03_fixed_lib_statement.
 Proof. exact c03_fixed_lib_proved. Qed.
 Print Assumptions c03_fixed_lib_partial.
 
+(* the reference fork choice has the meaning the property text gives to "follows the head" *)
+Theorem c03_reference_tip_rule : c03_reference_meaning.
+Proof. exact c03_reference_meaning_proved. Qed.
+Print Assumptions c03_reference_tip_rule.
+
 (* non-vacuity: a history in which the tip moves, stays (equal height, unlinkable-at-arrival parent
    order, re-fed block) and switches branch meets every hypothesis; the reference tips are listed *)
 Definition c03_ex_r0 : ref := mkR 1 10.
@@ -30,5 +35,10 @@ Example c03_nonvacuous :
   c03_ex_tips (c03_ex_cfg false) (fc_init (LExcl c03_ex_r0)) c03_ex_hist = [2; 3; 3; 5; 5; 5; 5; 9; 9; 9; 9] /\
   c03_ex_tips (c03_ex_cfg true) (fc_init (LExcl c03_ex_r0)) c03_ex_hist = [2; 3; 4; 5; 5; 6; 8; 9; 9; 9; 9] /\
   map (fun o => match o_head o with Some (r, _) => ri r | None => 0 end)
-      (fk_obs (c03_ex_cfg true) (fs_init (LExcl c03_ex_r0)) c03_ex_hist) = [2; 3; 4; 5; 5; 6; 8; 9; 9; 9; 9].
+      (fk_obs (c03_ex_cfg true) (fs_init (LExcl c03_ex_r0)) c03_ex_hist) = [2; 3; 4; 5; 5; 6; 8; 9; 9; 9; 9] /\
+  (* the premise of the noise-deletion clause holds for the re-fed block 3 and the below-LIB block 20 *)
+  (let fc := fc_after (c03_ex_cfg false) (fc_init (LExcl c03_ex_r0)) (firstn 8 c03_ex_hist) in
+   fc_step 0 false false fc (mkBlock 3 12 2 10) = fc) /\
+  (let fc := fc_after (c03_ex_cfg false) (fc_init (LExcl c03_ex_r0)) (firstn 9 c03_ex_hist) in
+   fc_step 0 false false fc (mkBlock 20 9 19 10) = fc).
 Proof. vm_compute. repeat split. Qed.
